@@ -105,6 +105,23 @@ def make(rng, entry, charset='E', nfaults=None, multi=None, alphabet=V.PLAIN, fa
             s_ = rng.choice(sts)
             s_['vals'] = s_['vals'][:2]
             tfaults.append((-1, 'st03_dropped'))
+    if trailer_faults and rng.random() < 0.06:
+        # a body segment that is nothing but its identifier
+        body = [s_ for s_ in doc if s_['id'] not in F.ENVELOPE and s_['id'] not in ('HL', 'LX', 'BHT')]
+        if body:
+            rng.choice(body)['vals'] = []
+            tfaults.append((-1, 'idonly_seg'))
+    if trailer_faults and rng.random() < 0.05:
+        # a group control number that is not a number and spells a segment id (its element errors quote it)
+        gss = [k for k, s_ in enumerate(doc) if s_['id'] == 'GS' and len(s_['vals']) >= 8]
+        if gss:
+            k = rng.choice(gss)
+            ge = next((j for j in range(k + 1, len(doc)) if doc[j]['id'] in ('GE', 'GS', 'IEA')), None)
+            bad = rng.choice(['GS001', 'GE7', 'ST22'])
+            doc[k]['vals'][5] = bad
+            if ge is not None and doc[ge]['id'] == 'GE' and len(doc[ge]['vals']) > 1:
+                doc[ge]['vals'][1] = bad
+            tfaults.append((-1, 'gs06_spells_segment'))
     if trailer_faults and rng.random() < 0.1:
         # needless trailing separators on a set trailer (a reader-level segment error of the SE itself)
         ses = [s_ for s_ in doc if s_['id'] == 'SE']
